@@ -28,7 +28,7 @@ Print Assumptions C10_nickname_target_exists.
 Theorem C10_nickname_always_succeeds :
   forall h name t,
     NickInv h -> NickTables h -> lookupS name (n2t h) = Some t ->
-    get0 name (nc h) <> 0 -> 0 <= get0 name (lc h) ->
+    get0 name (nc h) <> 0 -> 0 <= get0 name (lnc h) ->
     exists lo hi, ref_range h name = Ok (Some name, t, lo, hi) /\ 1 <= lo <= hi /\ hi = get0 name (nc h) /\
       forall d, lo <= d <= hi -> exists i, random_ref h name d = Ok (t, i).
 Proof. exact nick_ref_total. Qed.
